@@ -93,6 +93,15 @@ func init() {
 		m.Rule += " || added later: " + text
 		metas[prop] = m
 	}
+	for prop, text := range map[string]string{
+		"C01": "all histories of <= 5 calls over {Add 0/1/2, Remove 0/1/2, Clear, Clone-and-continue, walks} from a fresh tree (66 429 histories per run)",
+		"C07": "all histories of <= 5 calls over {Add 0/1/2, Remove 0/1/2, RemoveAt(0), RemoveAt(Len-1)} after NewSorted over 8 tiny inputs (299 592 histories per run)",
+		"C16": "all call sequences of length <= 10 over {insert, remove, Peek+Len} from the zero value, for Queue and Stack",
+	} {
+		mm := metas[prop]
+		mm.ExhaustivePart = text
+		metas[prop] = mm
+	}
 	m := metas["C18"]
 	m.ExhaustivePart = "all sequences of <= 4 calls over {Load, Store(0|1|2), Swap(0|1), CAS(0,1), CAS(1,0), CAS(1,2), CAS(2,2), CAS(0,0)} on a fresh AtomicValue of each of 3 representations (sequential)"
 	metas["C18"] = m
